@@ -301,6 +301,38 @@ theorem fresh_similar (v w : Ver) (pv1 pv2 : Str) :
     SimSt v w { pv := some pv1, proto := v } { pv := some pv2, proto := w } :=
   ⟨rfl, rfl, rfl, rfl, Or.inl ⟨rfl, rfl⟩⟩
 
+/-! ### A version report in the middle of a history -/
+
+/-- **A version report keeps what the gateway holds.**  Whatever string is reported — it resolves to a
+protocol or it does not — the version handler leaves the registry, the record of the presentation
+requests already sent, the commands parked for sleeping nodes, the writes and the coming write
+faults exactly as they were: only the stored version string and the active protocol may change.
+(`Lemmas/BodiesEq.iVersion14_eq` + `setProtocolVersion_eq`: this handler IS the text generated from
+`handle_i_version` and the `protocol_version` setter of the tree under check.) -/
+theorem version_report_keeps_held (m : Msg) (w : W) :
+    (hVersion m w).2.st.nodes = w.st.nodes ∧ (hVersion m w).2.st.ibuf = w.st.ibuf ∧
+    (hVersion m w).2.st.sbuf = w.st.sbuf ∧ (hVersion m w).2.writes = w.writes ∧ (hVersion m w).2.faults = w.faults := by
+  unfold hVersion convertExn
+  cases h : getProtocolE m.payload with
+  | ok v => simp [M.bind, M.seq, M.modifySt, M.pure]
+  | error c =>
+    cases hc : pyCaught c (clause Gen.excVersion 0) <;> simp [M.bind, M.raise, hc]
+
+/-- **A report that resolves joins the two gateways.**  From worlds that agree (`Sim v w`: the pair
+under comparison, whichever of the two — or neither — already runs the reported protocol `p`), the
+report is yielded by both, both run `p` afterwards, and registry, both buffers and the writes are
+still the same on both sides: nothing that was held is dropped on the side whose protocol changed. -/
+theorem version_report_joins (v w : Ver) (m : Msg) (w1 w2 : W) (hs : Sim v w w1 w2) (p : Ver)
+    (hp : getProtocolE m.payload = .ok p) :
+    (hVersion m w1).1 = .ok m ∧ (hVersion m w2).1 = .ok m ∧
+    (hVersion m w1).2.st.proto = p ∧ (hVersion m w2).2.st.proto = p ∧
+    (hVersion m w1).2.st.nodes = (hVersion m w2).2.st.nodes ∧
+    (hVersion m w1).2.st.ibuf = (hVersion m w2).2.st.ibuf ∧
+    (hVersion m w1).2.st.sbuf = (hVersion m w2).2.st.sbuf ∧
+    (hVersion m w1).2.writes = (hVersion m w2).2.writes := by
+  unfold hVersion convertExn
+  simp [hp, M.bind, M.seq, M.modifySt, M.pure, hs.st.nodes, hs.st.ibuf, hs.st.sbuf, hs.writes]
+
 /-! ### Whole histories across the lines 1.x → 2.x -/
 
 /-- States of an older (1.x) and a newer (2.x) gateway that agree (`SimSt`) and — while the two still
